@@ -52,6 +52,33 @@ def generate(repo):
             'true' if re.search(r'asserted_by_key\s*\.\s*is_empty\(\)\s*\|\|\s*row\s*\.\s*asserted_by\s*\.\s*is_null\(\)', elig) else 'false'))
         reasons = re.findall(r'reject\("(\w+)"\)', elig)
         out.append('Definition eligible_reasons : list string := [%s].\n' % '; '.join(coq_string(r) for r in reasons))
+    # the instant handed to the projection: eligible() compares `at` with the stored valid_from/valid_until
+    # as text, which is the chronological order only if `at` is in the stored (normalised) form
+    kq = strip_rust_comments(read(repo, 'rs/anda_cognitive_nexus/src/kql/mod.rs'))
+    runb = fn_body(kq, 'run', g)
+    if runb:
+        assigns = re.findall(r'\bcx\s*\.\s*at\s*=\s*([^;]+);', runb)
+        if not assigns:
+            lost(g, 'run: cx.at = ... (FOR TIME)')
+        ok = bool(assigns) and all(re.match(r'crate\s*::\s*time\s*::\s*normalize\s*\(', a.strip()) for a in assigns)
+        out.append('Definition for_time_at_normalized : bool := %s.\n' % ('true' if ok else 'false'))
+    other = [m for m in re.finditer(r'\.\s*at\s*=[^=]', kq)]
+    out.append('Definition context_at_assignments : nat := %d.\n' % len(other))
+    out.append('Definition default_at_is_now : bool := %s.\n' % (
+        'true' if re.search(r'\bat\s*:\s*crate\s*::\s*time\s*::\s*now\s*\(\s*\)', kq) else 'false'))
+    tm = strip_rust_comments(read(repo, 'rs/anda_cognitive_nexus/src/time.rs'))
+    fmt = fn_body(tm, 'format', g)
+    nrm = fn_body(tm, 'normalize', g)
+    now = fn_body(tm, 'now', g)
+    out.append('Definition stored_time_is_millis_utc : bool := %s.\n' % ('true' if (
+        re.search(r'to_rfc3339_opts\(\s*SecondsFormat::Millis\s*,\s*true\s*\)', fmt)
+        and re.search(r'format\(\s*parsed\s*\.\s*with_timezone\(\s*&Utc\s*\)\s*\)', nrm)
+        and re.search(r'format\(\s*Utc::now\(\)\s*\)', now)) else 'false'))
+    mt = strip_rust_comments(read(repo, 'rs/anda_cognitive_nexus/src/kql/matching.rs'))
+    mb = fn_body(mt, 'match_belief', g)
+    out.append('Definition belief_evaluated_at_context_time : bool := %s.\n' % ('true' if (
+        re.search(r'let\s+at\s*=\s*self\s*\.\s*at\s*\.\s*clone\(\)', mb)
+        and re.search(r'project_belief\(\s*id\s*,\s*&policy\s*,\s*&at\s*\)', mb)) else 'false'))
     return g, ''.join(out)
 
 
